@@ -210,6 +210,11 @@ func normalizeMessage(msg string) string {
 	return strings.TrimRight(string(out), " ")
 }
 
+// identSanitizer drops the characters that would break the line format when
+// they appear in a name or an e-mail. Git's own writer removes them as well
+// (strbuf_addstr_without_crud in ident.c).
+var identSanitizer = strings.NewReplacer("<", "", ">", "", "\n", "")
+
 // Encode writes a single reflog entry to the writer.
 func Encode(w io.Writer, e *Entry) error {
 	if w == nil {
@@ -228,11 +233,13 @@ func Encode(w io.Writer, e *Entry) error {
 	minutes := (offset % 3600) / 60
 
 	msg := normalizeMessage(e.Message)
+	name := identSanitizer.Replace(e.Committer.Name)
+	email := identSanitizer.Replace(e.Committer.Email)
 
 	if msg != "" {
 		_, err := fmt.Fprintf(w, "%s %s %s <%s> %d %c%02d%02d\t%s\n",
 			e.OldHash, e.NewHash,
-			e.Committer.Name, e.Committer.Email,
+			name, email,
 			e.Committer.When.Unix(), sign, hours, minutes,
 			msg,
 		)
@@ -241,7 +248,7 @@ func Encode(w io.Writer, e *Entry) error {
 
 	_, err := fmt.Fprintf(w, "%s %s %s <%s> %d %c%02d%02d\n",
 		e.OldHash, e.NewHash,
-		e.Committer.Name, e.Committer.Email,
+		name, email,
 		e.Committer.When.Unix(), sign, hours, minutes,
 	)
 	return err
